@@ -10,6 +10,15 @@ import (
 // currently held by a live node still fits into a delta datagram of its own
 // (packet header + node header + that entry), and a digest header fits.
 func (c *Cluster) MinPacket() int {
+	return c.minPacket(true)
+}
+
+// MinEntryPacket: as MinPacket, without requiring that a whole digest fits.
+func (c *Cluster) MinEntryPacket() int {
+	return c.minPacket(false)
+}
+
+func (c *Cluster) minPacket(fullDigest bool) int {
 	min := 0
 	for _, o := range c.Order {
 		n := c.Nodes[o]
@@ -33,6 +42,13 @@ func (c *Cluster) MinPacket() int {
 		// the whole digest must fit: the code shuffles a digest that does not fit and sends a random part of it,
 		// and a sweep in which nothing changed would then not mean that nothing is outstanding. Every node may
 		// come to know every node, so the size is that of a digest naming them all.
+		if !fullDigest {
+			b, err := gossip.VerifEncodeDigest(o, c.addrOf[o], true, nil, 1<<30)
+			if err == nil && len(b) > min {
+				min = len(b)
+			}
+			continue
+		}
 		dig := n.G.Digest()
 		seen := map[string]bool{}
 		for _, e := range dig {
@@ -83,6 +99,69 @@ func (c *Cluster) Drain(pktMax int, emit func(*Step)) {
 			emit(c.RecvDelta(slot, false))
 		}
 	}
+}
+
+// DigestPacket returns the largest maximum packet size with which a digest request of any live node carries
+// exactly k of the node's digest entries (the code then sends a random k of them), and whether that really
+// truncates (k smaller than the number of entries).
+func (c *Cluster) DigestPacket(k int) (int, bool) {
+	size, cuts := 0, false
+	for _, o := range c.Order {
+		n := c.Nodes[o]
+		if !n.Alive {
+			continue
+		}
+		dig := n.G.Digest()
+		for i := range dig {
+			dig[i].Version = 1 << 40
+		}
+		if len(dig) > k {
+			cuts = true
+		}
+		if len(dig) < k+1 {
+			continue
+		}
+		// the size of k+1 entries minus one byte holds k entries and no more
+		b, err := gossip.VerifEncodeDigest(o, c.addrOf[o], true, dig[:k+1], 1<<30)
+		if err == nil && (size == 0 || len(b)-1 < size) {
+			size = len(b) - 1
+		}
+	}
+	return size, cuts && size > 0
+}
+
+// Sweeps runs n fair sweeps with a packet size that cuts every digest to k entries (whichever k the code picks
+// at random each time) and then claims convergence: with truncated digests "a sweep changed nothing" does not
+// mean that nothing is outstanding, so no fixpoint is looked for; n is chosen so that on code that picks the
+// entries at random the chance of a node never being asked about is negligible.
+func (c *Cluster) Sweeps(k int, n int, emit func(*Step)) {
+	pktMax, cuts := c.DigestPacket(k)
+	if !cuts {
+		return
+	}
+	if m := c.MinEntryPacket(); m > pktMax {
+		return // an entry would not fit: not what this scenario is about (F3)
+	}
+	c.Drain(pktMax, emit)
+	for i := 0; i < n; i++ {
+		for _, a := range c.Order {
+			for _, b := range c.Order {
+				if a == b || c.live(a) == nil || c.live(b) == nil {
+					continue
+				}
+				s := c.Round(a, b, pktMax)
+				if s == nil {
+					continue
+				}
+				emit(s)
+				c.Drain(pktMax, emit)
+			}
+		}
+	}
+	end := &Step{Op: "ClosureEnd", Kx: n, Flag: true, PktMax: 0, Thr: pktMax}
+	end.Cmd = fmt.Sprintf(`["Sweeps",%d,%d]`, k, n)
+	c.Finish(end, false)
+	emit(end)
 }
 
 // Closure runs fair sweeps (every ordered pair of live nodes performs a full
